@@ -22,8 +22,9 @@ ALLOWED_AXIOMS = []
 LABEL = ('partial (the plugin up to an abstract module is modelled and proved about completely; "imports '
          'cleanly" and the text -> module step are Python\'s: they are a trusted transcription in the model and '
          'are exercised by the correspondence runs only)')
-TRUSTED = ['tools/facts_C20.py (fail-closed ast translator: _strip_proto suffixes, replace chain, module '
-           'suffixes, route format literals, render method-class chain, client *Method._cardinality)',
+TRUSTED = ['tools/facts_C20.py + harness/c20_probe.py (tables OBSERVED by running the plugin on probes: module '
+           'names for 30 paths, routes, flags -> Cardinality member -> client class -> cardinality it opens '
+           'streams with; fail-closed when the observations do not determine a table)',
            'modelled, not verified: the text templates of render() (tied by executing the generated text), '
            'Python 3.12 import/exec, class-body and dict-literal binding order, private-name mangling, '
            'keyword.kwlist, abc.ABCMeta; google.protobuf descriptor_pb2 / DescriptorPool / message classes '
@@ -813,52 +814,65 @@ def check_cases(ctx, res, cases):
 
 
 def check_tables(ctx, res):
-    """the small finite parts, enumerated completely: 4 flag pairs; module-name functions on a path sample"""
-    import grpclib.client
-    import grpclib.const
-    import grpclib.plugin.main as pm
-    paths = ['a.proto', 'a.protodevel', 'a', 'a/b-c.proto', 'x-y/z-w.protodevel', '.proto', '.protodevel',
-             'a.proto.proto', 'a.protodevel.proto', 'a.proto.protodevel', 'proto', 'a.protox', 'a-b/c-d/e-f',
-             '-', '/', 'a.b/c.d.proto', 'protodevel', 'x.protodevelx', '', 'a/.proto', 'A-B.PROTO']
-    lines = ['card %d %d' % (cs, ss) for cs in (0, 1) for ss in (0, 1)] + ['names ' + cps(p) for p in paths]
-    model = ctx.model(lines) if ctx.model_ok else None
-    k = 0
-    for cs in (False, True):
-        for ss in (False, True):
-            res.evaluations += 1
-            member = pm._CARDINALITY[(cs, ss)]
-            cls = {grpclib.const.Cardinality.UNARY_UNARY: grpclib.client.UnaryUnaryMethod,
-                   grpclib.const.Cardinality.UNARY_STREAM: grpclib.client.UnaryStreamMethod,
-                   grpclib.const.Cardinality.STREAM_UNARY: grpclib.client.StreamUnaryMethod,
-                   grpclib.const.Cardinality.STREAM_STREAM: grpclib.client.StreamStreamMethod}[member]
-            impl = [member.name, cls.__name__, cls._cardinality.name,
-                    '1' if cls._cardinality.client_streaming else '0',
-                    '1' if cls._cardinality.server_streaming else '0']
-            if model is not None:
-                res.traces += 1
-                got = [uncps(w) if j < 3 and w != '?' else w for j, w in enumerate(model[k].split())]
-                if got != impl:
-                    res.disagreements.append({'case': {'op': 'card', 'cs': cs, 'ss': ss}, 'model': got,
-                                              'impl': impl})
-            if (bool(member.client_streaming), bool(member.server_streaming)) != (cs, ss) or \
-                    (impl[3], impl[4]) != ('1' if cs else '0', '1' if ss else '0'):
-                res.oracle_failures.append({
-                    'case': {'op': 'card', 'cs': cs, 'ss': ss},
-                    'what': 'flags (%s, %s) map to %s / %s' % (cs, ss, member.name, cls.__name__),
-                    'signature': {'kind': 'cardinality-table', 'cause': 'none'}, 'observed': impl})
-            k += 1
-    for p in paths:
+    """the small finite parts, through the public behaviour only (harness/c20_probe.py): the 4 flag pairs end to
+    end (flags -> member in the mapping -> client class of the stub -> cardinality that class opens streams
+    with) and the module-name functions on the probe paths, model vs implementation vs protoc's rule"""
+    from harness import c20_probe
+    case = c20_probe.probe_case()
+    obs = run_helper([case])[0]
+    try:
+        t = c20_probe.tables(case, obs)
+    except c20_probe.ProbeError as e:
+        # the probes are ordinary valid inputs: let the oracle speak about them, and say the tie is broken
         res.evaluations += 1
-        impl = [pm._strip_proto(p), pm._proto2pb2_module_name(p), pm._proto2grpc_module_name(p),
-                pm._proto2grpc_module_name(p).replace('.', '/') + '.py']
+        fails, why = oracle(case, obs)
+        for what, sig in fails:
+            res.oracle_failures.append({'case': case, 'what': what, 'signature': sig, 'observed': canon_impl(obs)})
+        res.disagreements.append({'case': {'op': 'probe'}, 'model': 'tables', 'impl': 'not determined: %s' % e})
+        return
+    paths = [n[0] for n in t['names']]
+    lines = ['card %d %d' % (cs, ss) for cs, ss in c20_probe.FLAGS] + ['names ' + cps(p) for p in paths]
+    model = ctx.model(lines) if ctx.model_ok else None
+    fm, mc, cm = dict(t['flags_member']), dict(t['member_cls']), dict(t['cls_member'])
+    import grpclib.const
+    k = 0
+    for cs, ss in c20_probe.FLAGS:
+        res.evaluations += 1
+        member = fm[(cs, ss)]
+        cls = mc.get(member, '?')
+        ccard = cm.get(cls, '?')
+        try:
+            cflags = grpclib.const.Cardinality[ccard]
+            cflags = ['1' if cflags.client_streaming else '0', '1' if cflags.server_streaming else '0']
+            mflags = grpclib.const.Cardinality[member]
+            mflags = (bool(mflags.client_streaming), bool(mflags.server_streaming))
+        except KeyError:
+            cflags, mflags = ['?', '?'], None
+        impl = [member, cls, ccard] + cflags
+        if model is not None:
+            res.traces += 1
+            got = [uncps(w) if j < 3 and w != '?' else w for j, w in enumerate(model[k].split())]
+            if got != impl:
+                res.disagreements.append({'case': {'op': 'card', 'cs': cs, 'ss': ss}, 'model': got, 'impl': impl})
+        if mflags != (cs, ss) or cflags != ['1' if cs else '0', '1' if ss else '0']:
+            res.oracle_failures.append({
+                'case': {'op': 'card', 'cs': cs, 'ss': ss},
+                'what': 'flags (%s, %s) map to %s / %s opening %s' % (cs, ss, member, cls, ccard),
+                'signature': {'kind': 'cardinality-table', 'cause': 'none'}, 'observed': impl})
+        k += 1
+    for p, pb2, out in t['names']:
+        res.evaluations += 1
+        impl = [pb2, out]
         if model is not None:
             res.traces += 1
             got = [uncps(w) for w in model[k].split()]
+            got = [got[1], got[3]]          # (strip_proto and the grpc module name are not observable)
             if got != impl:
                 res.disagreements.append({'case': {'op': 'names', 'path': p}, 'model': got, 'impl': impl})
-        if impl[1] != pb2_mod(p):
+        want = [pb2_mod(p), protoc_base(p).replace('.', '/') + '_grpc.py']
+        if impl != want:
             res.oracle_failures.append({'case': {'op': 'names', 'path': p},
-                                        'what': 'pb2 module name %r, protoc names it %r' % (impl[1], pb2_mod(p)),
+                                        'what': 'module names %r, protoc\'s rule gives %r' % (impl, want),
                                         'signature': {'kind': 'module-name', 'cause': 'none'}, 'observed': impl})
         k += 1
     res.count('tables:cardinality', 4)
@@ -909,7 +923,7 @@ def run(ctx):
 
 def replay(ctx, case):
     res = Result()
-    if case.get('op') in ('card', 'names'):
+    if case.get('op') in ('card', 'names', 'probe'):
         check_tables(ctx, res)
     else:
         check_cases(ctx, res, [case])
